@@ -974,7 +974,7 @@ func mkE2E(rp Replay) (*Case, error) {
 	for i, q := range rp.Sources {
 		src, err := rParseSource(q)
 		if err != nil || badLike(src) {
-			continue // a malformed LIKE pattern makes the server call a nil func outside any recover: not run in-process
+			continue // a malformed LIKE pattern, if accepted (a regression of tagseval.go), makes the server call a nil func outside any recover: not run in-process (hist/eval cases cover it)
 		}
 		useShow := i < len(rp.Show) && rp.Show[i] == "show"
 		kind, lines := "ok", []string{}
